@@ -324,7 +324,7 @@ func ruleN5(c *Ctx) {
 		}
 		c.check(inLoop || long[b], "N5", fmt.Sprintf("pUInt64Val:error-return#%d", nerr), ret.Pos(), "this error return lies inside the digit loop or under the too-long test (an empty string is not an error)")
 	}
-	c.check(zeroOK && nerr >= 3, "N5", "pUInt64Val:empty-is-zero", fn.Pos(), fmt.Sprintf("the success return hands back the accumulator as the loop left it (0 for an empty string); %d returns, %d error returns", n, nerr))
+	c.check(zeroOK && nerr >= 2, "N5", "pUInt64Val:empty-is-zero", fn.Pos(), fmt.Sprintf("the success return hands back the accumulator as the loop left it (0 for an empty string); %d returns, %d error returns", n, nerr))
 }
 
 // N6: shared with C01/C02 rule R3b.
@@ -339,6 +339,68 @@ func ruleN6(c *Ctx) {
 	c.expectMin("N6", 4)
 }
 
+
+// N8: the running minimum starts once per message. The all-ones start value of MinExpires is stored (outside
+// Reset/Init) only where the dominating branch facts entail N <= 0 for the counter of the same list: an
+// initialisation that also runs for the first value of a later header (or for every value) makes the minimum
+// summarise only the values after it.
+func ruleN8(c *Ctx) {
+	n := 0
+	var keys []string
+	for k := range c.Prog.SFuncs {
+		keys = append(keys, k)
+	}
+	sort.Strings(keys)
+	for _, k := range keys {
+		fn := c.Prog.SFuncs[k]
+		if fn == nil || fn.Name() == "Reset" || fn.Name() == "Init" {
+			continue
+		}
+		for _, b := range fn.Blocks {
+			for _, ins := range b.Instrs {
+				st, ok := ins.(*ssa.Store)
+				if !ok {
+					continue
+				}
+				fa, ok := st.Addr.(*ssa.FieldAddr)
+				if !ok {
+					continue
+				}
+				sd := derefStruct(fa.X.Type())
+				if sd == nil || sd.Field(fa.Field).Name() != "MinExpires" {
+					continue
+				}
+				kv, isK := constIntOf(st.Val)
+				if !isK || (kv != -1 && kv != 0xffffffff) {
+					continue
+				}
+				n++
+				// the counter N of the same object
+				var nload ssa.Value
+				for _, b2 := range fn.Blocks {
+					for _, i2 := range b2.Instrs {
+						if u, ok := i2.(*ssa.UnOp); ok && u.Op == token.MUL {
+							if f2, ok := u.X.(*ssa.FieldAddr); ok && addrPath(f2.X) == addrPath(fa.X) && addrPath(fa.X) != "" {
+								if s2 := derefStruct(f2.X.Type()); s2 != nil && s2.Field(f2.Field).Name() == "N" && nload == nil {
+									nload = u
+								}
+							}
+						}
+					}
+				}
+				if nload == nil {
+					c.fail("N8", k+":MinExpires-start", st.Pos(), "the start value of MinExpires is stored in a function that never reads the list counter N")
+					continue
+				}
+				env := newLinEnv(linOpts{pathLoads: true})
+				ok2, why := entails(usableFacts(env, st, true), env.norm(nload))
+				c.check(ok2, "N8", k+":MinExpires-start", st.Pos(), fmt.Sprintf("the all-ones start value of MinExpires is stored only under N <= 0 of the same list (entailed by: %s)", why))
+			}
+		}
+	}
+	c.check(n >= 1, "N8", "instances", token.NoPos, fmt.Sprintf("%d start-value stores outside Reset/Init (frozen minimum 1)", n))
+}
+
 func init() {
 	register(&PropDef{
 		ID: "C09",
@@ -349,6 +411,7 @@ func init() {
 			{"N7", "the automaton extracted from ParseNameAddrPVal equals the reviewed reference table (ref/ParseNameAddrPVal.txt): for every state and byte class the next state or exit, the verdict set, the field actions with their arguments (locals other than the scan index abstracted) and the returned offset; a transition that loses an action, changes target, verdict or byte class shows up as a missing and an extra row", func(c *Ctx) { fsmRefRule(c, "N7", "ParseNameAddrPVal") }},
 			{"N6", "Contact / P-Asserted-Identity headers always reach their typed parser and their header counter (shared with C01-R3b): the dispatch state is never left undispatched and the dispatcher reports a non-zero verdict only after storing a typed state", ruleN6},
 			{"N5", "the number helper behind expires / q rejects only non-numbers: every error return of pUInt64Val lies inside its digit loop or under the len(b) > K test, and its success return hands back the accumulator as the loop left it, so the empty string is 0 (q=1. has an empty fraction)", ruleN5},
+			{"N8", "the running minimum of the Contact expires starts once per message: outside Reset/Init the all-ones start value of MinExpires is stored only where the dominating branch facts entail N <= 0 for the counter of the same list, so the minimum and maximum summarise all values of all Contact headers", ruleN8},
 			{"N4", "list bookkeeping: N++, Min/MaxExpires, first-contact copy unconditional in the completion clause, HNo on first entry, header kind recorded on every completing exit", ruleN4},
 		},
 		Assumptions: []string{"skipLWS consumes only linear whitespace"},
